@@ -30,7 +30,11 @@ ShownAll(stack) == JoinWith(stack, 1, ", ", [k \in 1..Len(stack) |-> stack[k].sh
 StrVal(s) == [kind |-> "str", src |-> s, dbg |-> "?", shown |-> s]
 
 (* the program of one case: push the arguments, call, print what came back, go on *)
-Prog(c) == [k \in 1..Len(c.args) |-> [op |-> "push", v |-> Vals[c.args[k]]]]
+Prog(c) == IF "where" \in DOMAIN c /\ c.where = "module_tail"
+           THEN \* the foreign call is the last thing the program does (`call_lib` directly before the module's `ret`)
+                [k \in 1..Len(c.args) |-> [op |-> "push", v |-> Vals[c.args[k]]]] \o << [op |-> "call", f |-> c.call] >>
+           ELSE
+           [k \in 1..Len(c.args) |-> [op |-> "push", v |-> Vals[c.args[k]]]]
            \o << [op |-> "call", f |-> c.call], [op |-> "print"], [op |-> "void"] >>
            \* optionally a second foreign call with its own (single) argument: stale operands or a
            \* cached library / symbol of the first call must not leak into it
